@@ -77,4 +77,11 @@ CHAN_PROGS = [
     ("chan_mixed_struct.order",
      JOB + CHAN_HEAD + "task {\n    let r1 = c.read()\n    let r2 = c.read()\n    println(r1.id)\n    println(r2.id)\n    println(r2.items.len())\n"
      "    done.write(1)\n}\nc.write(j)\nc.write(Job(9, [4], \"z\"))\ndone.read()\n", "7\n9\n1\n"),
+    # a channel used as a local queue by ONE task (nobody else holds it): the value read is still an independent copy
+    ("chan_local_queue.writer_mutates",
+     "let q: channel<array<int>> = channel()\nlet a = [1, 2, 3]\nq.write(a)\nlet b = q.read()\na.push(4)\na[0] = 100\nprintln(b.len())\nprintln(b[0])\n"
+     "b.push(5)\nb.push(6)\nprintln(a.len())\n", "3\n1\n4\n"),
+    ("chan_local_queue.two_queued_nested",
+     "let rows: channel<array<array<int>>> = channel()\nlet r1 = [[1], [2]]\nlet r2 = [[3], [4]]\nrows.write(r1)\nrows.write(r2)\n"
+     "let g1 = rows.read()\nlet g2 = rows.read()\nr1[0].push(9)\nr2.pop()\nprintln(g1[0].len())\nprintln(g2.len())\nprintln(g1[1][0])\nprintln(g2[0][0])\n", "1\n2\n2\n3\n"),
 ]
